@@ -107,7 +107,7 @@ theorem styleAttrs_ok (c : RenderCtx) (hlab : ∀ j, NoBs (c.label j).toList) (j
     simp only [String.toList_append]
     refine noBs_append (noBs_append (noBs_of_idChars (rid_idOk c j).2.1) ?_) (hlab j)
     unfold NoBs; decide
-  have hbase : ∀ kv ∈ [("shape", "box"), ("color", "red"), ("penwidth", "2"), ("penwidth", "0.5")],
+  have hbase : ∀ kv ∈ [("shape", "box"), ("color", "red"), ("penwidth", "2"), ("color", "black"), ("penwidth", "0.5")],
       IdOk (kv : String × String).1.toList ∧ NoBs kv.2.toList := by
     unfold IdOk NoBs; decide
   intro kv hkv
@@ -125,8 +125,7 @@ theorem styleAttrs_ok (c : RenderCtx) (hlab : ∀ j, NoBs (c.label j).toList) (j
       rcases h with rfl | rfl <;> simp
     · rw [if_neg hc] at h
       simp only [List.mem_cons, List.not_mem_nil, or_false] at h
-      subst h
-      exact hbase _ (by simp)
+      rcases h with rfl | rfl <;> exact hbase _ (by simp)
 
 theorem holderAttrs_ok : ∀ kv ∈ holderAttrs, IdOk kv.1.toList ∧ NoBs kv.2.toList := by
   unfold holderAttrs IdOk NoBs; decide
